@@ -164,6 +164,97 @@ def strat_repack(tier):
                                       decoy=st.booleans())).filter(lambda c: c["pa"] != c["pb"])
 
 
+def _lib_codes():
+    """code objects of every function/method defined in bec2format.bec2file, bec2format.crypto and the crypto plug-in module"""
+    import sys as _sys
+    import types as _types
+
+    import register_crypto_plugin as _plug
+
+    mods = [_sys.modules["bec2format.bec2file"], _sys.modules["bec2format.crypto"], _plug]
+    files = {m.__file__ for m in mods}
+    out = set()
+
+    def add(v):
+        f = v.__func__ if isinstance(v, (classmethod, staticmethod)) else v.fget if isinstance(v, property) else v
+        if isinstance(f, _types.FunctionType) and f.__code__.co_filename in files:
+            out.add(f.__code__)
+
+    for m in mods:
+        for v in list(vars(m).values()):
+            add(v)
+            if isinstance(v, type):
+                for a in list(vars(v).values()):
+                    add(a)
+    return out
+
+
+def check_interleave(case, rec):
+    """Two writers packing ECC blocks for DIFFERENT recipients and session keys 'at the same time': writer A is stopped before each source
+    line of the library's own wrapping code (bec2file / crypto / plug-in frames; sys.settrace line events) and writer B's complete pack runs
+    there (under the GIL the same as a switch to a second thread that runs B to completion); both blocks must open for their own
+    recipient to their own session key.  The objects are separate - only hidden shared state could couple them."""
+    import sys as _sys
+
+    sel, ka, kb, pa, pb = case["sel"], case["ka"], case["kb"], case["pa"], case["pb"]
+    rec.cls("sel=%d" % sel)
+    rec.nt()
+    codes = _lib_codes()
+
+    def writer(key, priv):
+        enc = B2.EccEncryptor(sel, B2.EccDecryptor(sel, sut.private_key_from_int(priv)).public_key)
+        return lambda: B2.InitEccAuthBlock(sel).pack(key, [enc])
+
+    def run(i):
+        st_ = dict(n=0, b=None)
+        fb = writer(kb, pb)
+
+        def local(frame, event, arg):
+            if event == "line":
+                if st_["n"] == i:
+                    st_["b"] = fb()  # nested trace events are suppressed inside a trace callback: B runs untraced
+                st_["n"] += 1
+            return local
+
+        def glob(frame, event, arg):
+            return local if frame.f_code in codes else None
+
+        old = _sys.gettrace()
+        _sys.settrace(glob)
+        try:
+            a = writer(ka, pa)()
+        finally:
+            _sys.settrace(old)
+        return a, st_["b"], st_["n"]
+
+    with sut.DetKeys(case_hash(case)):
+        _, _, n = run(-1)
+        if n < 5:
+            from vlib.core import HarnessError
+
+            raise HarnessError("only %d line events seen in the library's wrapping code - tracing does not reach it" % n)
+        rec.cls("interleave.points", n)
+        for i in range(n):
+            try:
+                a, b, _ = run(i)
+            except Exception as e:
+                raise Violation("writer A preempted at line event %d of %d by a complete writer B: %s: %s" % (i, n, type(e).__name__, e))
+            for who, blk, priv, key in (("A (preempted)", a, pa, ka), ("B (ran inside A)", b, pb, kb)):
+                _shape(blk, sel)
+                try:
+                    got = M.ecies_open(priv, blk[1:])
+                except M.Reject as r:
+                    got = None
+                if got != key:
+                    raise Violation("two writers interleaved (A stopped at line event %d of %d while B packs a block for another recipient): the block of writer %s "
+                                    "does not open to its session key for its own recipient (got %s)" % (i, n, who, got.hex() if got else "a rejection"))
+
+
+def strat_interleave(tier):
+    return st.fixed_dictionaries(dict(sel=st.integers(0, 3), ka=st.binary(min_size=16, max_size=16), kb=st.binary(min_size=16, max_size=16),
+                                      pa=S.ecc_priv(), pb=S.ecc_priv())).filter(lambda c: c["pa"] != c["pb"] and c["ka"] != c["kb"])
+
+
 def check_pinned(case, rec):
     sel = case["sel"]
     rec.cls("sel=%d" % sel)
@@ -416,6 +507,7 @@ def parts(tier):
         Part("explicit", check=check_explicit, strategy=strat_explicit, quick=(16, 150), thorough=(16, 2500)),
         Part("default", check=check_default, strategy=strat_default, quick=(16, 100), thorough=(16, 1500)),
         Part("repack", check=check_repack, strategy=strat_repack, quick=(8, 40), thorough=(16, 400)),
+        Part("interleave", check=check_interleave, strategy=strat_interleave, quick=(8, 3), thorough=(16, 20)),
         Part("interop", check=check_interop, strategy=strat_interop, quick=(16, 60), thorough=(16, 1000)),
         Part("rawder", check=check_rawder, strategy=strat_rawder, quick=(4, 40), thorough=(16, 300)),
         Part("reject_constructed", check=check_small_y, enum=enum_small_y, quick=(2, 0), thorough=(4, 0)),
